@@ -1,4 +1,6 @@
 import AsModel.WiringResolve
+import AsModel.Generated.Gating
+import AsModel.RuntimeItems
 /-!
 # C16 — disabling the regex feature removes only regex matching
 
@@ -31,29 +33,35 @@ theorem C16_runtime_delta : (resolve wiring ⟨false, false⟩).runtimeRegex = f
 so user `Like` patterns would stop working) is dead: no selection reaches it. -/
 theorem C16_dead_branch : ∀ sel ∈ allSelections, (resolve wiring sel).macroRegex = true := by decide
 
-/-- Items of the runtime crate gated on its `regex` feature. -/
-def gatedItems : List String :=
-  ["__macro_support::Regex", "Like<&str> for String", "Like<String> for String", "Like<&str> for &str",
-   "Like<String> for &str", "Like<Regex> for String", "Like<Regex> for &str"]
+/-! ### Which items exist in which configuration (`Generated/Gating.lean`: read from assert-struct/src/*.rs on every run) -/
 
-/-- What a template of the expansion needs from the runtime crate beyond the always-present items. -/
-def templateNeeds : String → List String
-  | "regex" => ["__macro_support::Regex", "Like<Regex> for String"]   -- `=~ "literal"`
-  | _ => []                                                            -- every other template, incl. `=~ expr` with a user impl
+/-- **Disabling the feature removes only regex matching**: the items of the runtime crate compiled
+only with `regex` are the `Regex` re-export of the macro's support module and the module of the
+six string / regex `Like` impls - nothing else in the crate is gated, and nothing is compiled only
+*without* the feature (no item changes meaning). -/
+theorem C16_gated_is_regex_matching_only :
+    gatingRead = true ∧ withoutItems = [] ∧
+    gatedItems = ["__macro_support::Regex", "like_impls", "impl Like<&str> for String", "impl Like<String> for String",
+      "impl Like<&str> for &str", "impl Like<String> for &str", "impl Like<regex::Regex> for String",
+      "impl Like<regex::Regex> for &str"] := by decide
+
+open AsModel (baseItems templateItems templateNames)
+
+/-- **Every template other than the regex literal's names only items that exist in every
+configuration**: it is compiled from the same tokens against the same items with and without the
+feature - in particular `=~ expr` with a user `Like` impl (the trait itself is not gated). -/
+theorem C16_unaffected : ∀ t ∈ templateNames, t ≠ "regex" → ∀ i ∈ baseItems ++ templateItems t, i ∈ openItems := by
+  decide
 
 /-- **A regex literal is rejected at compile time when the feature is off**: its template names
-an item that is absent — it is not accepted with another meaning. -/
+`__macro_support::Regex`, which does not exist then - it is not accepted with another meaning. -/
 theorem C16_literal_rejected :
     (resolve wiring ⟨false, false⟩).runtimeRegex = false ∧
-      ∃ item ∈ templateNeeds "regex", item ∈ gatedItems := by
-  refine ⟨by decide, "__macro_support::Regex", by simp [templateNeeds], by simp [gatedItems]⟩
+      "__macro_support::Regex" ∈ templateItems "regex" ∧ "__macro_support::Regex" ∈ gatedItems ∧
+      "__macro_support::Regex" ∉ openItems := by
+  decide
 
-/-- Every other template needs no gated item, so it is compiled from the same tokens against the
-same items in both configurations. -/
-theorem C16_unaffected (t : String) (h : t ≠ "regex") : templateNeeds t = [] := by
-  unfold templateNeeds
-  split
-  · exact absurd rfl h
-  · rfl
+/-- User `Like` patterns keep working: the `like` template needs the trait only, which is open. -/
+theorem C16_user_like_survives : ∀ i ∈ templateItems "like", i ∈ openItems ∧ i ∉ gatedItems := by decide
 
 end AsModel.Generated
